@@ -173,7 +173,43 @@ def generate(rng, tier, idx):
             # sampled); a copy made earlier must go on behaving as the original did then
             ops.append({'op': rng.choice(['disturb_original', 'disturb_copy']), 'm': m,
                         'state': rng.randrange(2**31)})
+    for k, p_ in enumerate(pop):
+        if kinds[p_['id']] == 'vine' and (idx + k) % 2 == 0:
+            # the trees of a vine are models with a recorded type of their own: the generic
+            # entry point dispatches on it like on any other
+            ops.append({'op': 'tree_dispatch', 'm': p_['id'], 'k': (idx // 2) % 3})
     return {'population': pop, 'ops': ops, 'g0': rng.randrange(2**31)}
+
+
+def _tree_dispatch(ctx, rec, op):
+    from copulas.multivariate import Multivariate
+    model = rec['cur']
+    trees = getattr(model, 'trees', None) or []
+    if not rec['fitted'] or not trees:
+        return
+    tree = trees[op['k'] % len(trees)]
+    d = outcome(tree.to_dict)
+    if d[0] != 'ok':
+        return
+    ctx.probes['tree_generic_dispatch'] += 1
+    r = outcome(Multivariate.from_dict, copy.deepcopy(d[1]))
+    subject = 'copulas.multivariate.base.Multivariate.from_dict'
+    cond = {'cls': type(tree).__name__, 'via': 'dict_generic', 'fitted': True}
+    if r[0] != 'ok':
+        ctx.violate('roundtrip_completes', subject,
+                    'generic from_dict of a %s dict raised %s: %s'
+                    % (type(tree).__name__, outcome_class(r), str(r[1])[:120]), **cond)
+        return
+    if type(r[1]) is not type(tree):
+        ctx.violate('same_family', subject, 'recorded %s, got %s'
+                    % (type(tree).__name__, type(r[1]).__name__), **cond)
+        return
+    back = outcome(r[1].to_dict)
+    from copsim.core import same
+    if back[0] != 'ok' or not same(back[1], d[1]):
+        ctx.violate('to_dict_equal', subject,
+                    'to_dict() of the rebuilt tree differs from the dict it was built from',
+                    **cond)
 
 
 def fixed_runs(tier):
@@ -358,6 +394,9 @@ def execute(run):
             if op['op'] == 'disturb_copy':
                 _disturb_copy(ctx, rec, op)
                 continue
+            if op['op'] == 'tree_dispatch':
+                _tree_dispatch(ctx, rec, op)
+                continue
             kind, spec = rec['kind'], rec['spec']
             cls_short = zoo.short(spec['cls'])
             opts = ','.join(sorted(spec.get('ctor') or {})) or '-'
@@ -397,6 +436,15 @@ def execute(run):
                                want_cls.__name__), **cond)
                 if type(new) is not type(rec['orig']) and want_cls is not type(rec['orig']):
                     ctx.probes['wrapper_to_family_type_change'] += 1
+                try:
+                    new_kind = zoo.kind_of(type(new).__module__ + '.' + type(new).__name__)
+                except ValueError:
+                    new_kind = None
+                if new_kind != kind:
+                    # not even a model of the same kind (somebody else's file came back):
+                    # nothing further can be compared, and it does not replace the copy
+                    ctx.event('hop', op['m'], op['via'], 'foreign', type(new).__name__)
+                    continue
             elif want_cls is not type(rec['orig']):
                 ctx.probes['wrapper_to_family_type_change'] += 1
             if rec['fitted']:
